@@ -1407,6 +1407,19 @@ class Interp:
                 return {ast.Eq: a == b, ast.NotEq: a != b, ast.Lt: a < b, ast.Gt: a > b, ast.LtE: a <= b, ast.GtE: a >= b}[opn]
             except TypeError:
                 return Unk('comparison of constants', e)
+        if isinstance(a, Shape) and isinstance(b, Shape) and opn in (ast.Eq, ast.NotEq):
+            # two shapes are equal when they have as many axes and the axes are as long
+            if len(a.dims) != len(b.dims):
+                return opn is ast.NotEq
+            p_ = Poly.const(1)
+            for da_, db_ in zip(a.dims, b.dims):
+                if da_ != db_:
+                    if da_ is None or db_ is None:
+                        return Unk('shape comparison', e)
+                    p_ = p_ * alg.mk_ind('==0', alg.count(da_) - alg.count(db_))
+            if p_.is_const():
+                return (p_.const_value() == 1) == (opn is ast.Eq)
+            return Arr((), p_ if opn is ast.Eq else alg.b_not(p_))
         if isinstance(a, (Shape, tuple)) or isinstance(b, (Shape, tuple)):
             return Unk('shape comparison', e)
         if isinstance(a, str) or isinstance(b, str):
@@ -2800,7 +2813,7 @@ def _is_boolean(p):
         return p.const_value() in (0, 1)
     for m in p.t:
         for a, _ in m:
-            if a[0] != 'ind' and not (a[0] == 'fn' and a[1] in ('any', 'all')):
+            if a[0] != 'ind' and not (a[0] == 'fn' and a[1] in ('any', 'all', 'loosely_close')):
                 return False
     return True
 
